@@ -208,7 +208,7 @@ def run(pid: str, tier: str, seed: int, replay_file: str | None, only: str | Non
                     bounded_canary_ok.add(v2.ob.name)
                     need.discard(v2.ob.name)
                 else:
-                    bounded_models.setdefault(v2.ob.name, []).append(v2.ob)
+                    bounded_models.setdefault(v2.ob.name, []).append(v2)
         bounded_note = f"bounded mode consulted for {len(bounded_canary_ok) + len(bounded_models)} names in {time.time() - t_b:.1f}s"
 
     violations: list[str] = []
@@ -249,8 +249,9 @@ def run(pid: str, tier: str, seed: int, replay_file: str | None, only: str | Non
         inputs: dict[str, Any] = {}
         if v.result == "unknown" and ob.name in bounded_models and u.replay is not None:
             # bounded-mode counter-models: keep one only if it reproduces natively
-            for ob2 in bounded_models[ob.name][:4]:
-                m2 = smt.get_model(ob2)
+            for v2 in bounded_models[ob.name][:4]:
+                ob2 = v2.ob
+                m2 = smt.model_for(v2)
                 if m2 is None:
                     continue
                 cand = {}
@@ -279,7 +280,7 @@ def run(pid: str, tier: str, seed: int, replay_file: str | None, only: str | Non
                 continue
             model = None
         else:
-            model = smt.get_model(ob)
+            model = smt.model_for(v)
         if model is not None and rr is None:
             for nm, val in ob.inputs.items():
                 try:
